@@ -1082,7 +1082,7 @@ ByteString DBObject::getByteStringValue(CK_ATTRIBUTE_TYPE type)
 	}
 }
 
-CK_ATTRIBUTE_TYPE DBObject::nextAttributeType(CK_ATTRIBUTE_TYPE)
+CK_ATTRIBUTE_TYPE DBObject::nextAttributeType(CK_ATTRIBUTE_TYPE type)
 {
 	MutexLocker lock(_mutex);
 
@@ -1097,8 +1097,35 @@ CK_ATTRIBUTE_TYPE DBObject::nextAttributeType(CK_ATTRIBUTE_TYPE)
 		return false;
 	}
 
-	// FIXME: implement for C_CopyObject
-	return CKA_CLASS;
+	// Find the smallest attribute type of this object that is larger than the
+	// given one, looking at every attribute table; after the last attribute the
+	// iteration wraps around to CKA_CLASS (this is what C_CopyObject relies on)
+	long long objectId = _objectId;
+	long long after = (long long) type;
+	DB::Statement statement = _connection->prepare(
+		"select min(type) from ("
+		"select type from attribute_boolean where object_id=%lld and type>%lld union all "
+		"select type from attribute_integer where object_id=%lld and type>%lld union all "
+		"select type from attribute_binary where object_id=%lld and type>%lld union all "
+		"select type from attribute_array where object_id=%lld and type>%lld union all "
+		"select type from attribute_text where object_id=%lld and type>%lld union all "
+		"select type from attribute_datetime where object_id=%lld and type>%lld union all "
+		"select type from attribute_real where object_id=%lld and type>%lld)",
+		objectId, after, objectId, after, objectId, after, objectId, after,
+		objectId, after, objectId, after, objectId, after);
+	if (!statement.isValid())
+	{
+		ERROR_MSG("Preparing attribute type selection statement failed");
+		return CKA_CLASS;
+	}
+
+	DB::Result result = _connection->perform(statement);
+	if (!result.isValid() || result.fieldIsNull(1))
+	{
+		return CKA_CLASS;
+	}
+
+	return (CK_ATTRIBUTE_TYPE) result.getULongLong(1);
 }
 
 // Set the specified attribute
